@@ -361,7 +361,7 @@ p(x,y) <-- e(x,y);
 p(x,z) <-- e(x,y), p(y,z);
 cnt(n) <-- agg n = count() in p(_,_);
 outdeg(x,n) <-- e(x,_), agg n = count() in p(x,_);
-""", "agg par pack", bound=4)
+""", "agg par pack life", bound=4)
 
 prog("neg_basic", """
 rel e(int,int) input; rel p(int,int); rel node(int); rel unreach(int,int); rel sink(int);
@@ -371,7 +371,7 @@ node(x) <-- e(x,_);
 node(x) <-- e(_,x);
 unreach(x,y) <-- node(x), node(y), !p(x,y);
 sink(x) <-- node(x), !e(x,_);
-""", "agg par sugar perm pack", bound=4)
+""", "agg par sugar perm pack life", bound=4)
 
 prog("agg_minmaxsum", """
 rel w(int,int,int) input; rel mn(int,int); rel mx(int,int); rel sm(int,int); rel tot(int); rel lo(int);
@@ -389,7 +389,7 @@ maxdeg(m) <-- agg m = max(n) in deg(_,n);
 top(x) <-- deg(x,n), maxdeg(n);
 ntop(x) <-- deg(x,_), !top(x);
 cnt2(c) <-- agg c = count() in ntop(_);
-""", "agg par", bound=4)
+""", "agg par life", bound=4)
 
 prog("agg_lattice", """
 rel w(int,int,int) input; lat sp(int,int,dual_i32); rel far(int,int); rel nsp(int); rel tot(int);
@@ -398,7 +398,7 @@ sp(x,z,dual(c + undual(l))) <-- w(x,y,c), sp(y,z,l), if c + undual(l) < 9;
 far(x,m) <-- w(x,_,_), agg m = count() in sp(x,_,_);
 nsp(n) <-- agg n = count() in sp(_,_,_);
 tot(s) <-- agg s = sumpairs(x,y) in far(x,y);
-""", "agg par", bound=3)
+""", "agg par life", bound=3)
 
 prog("agg_user", """
 rel w(int,int,int) input; rel ext(int,int); rel sp(int); rel cntk(int,int);
@@ -427,14 +427,14 @@ rel e(int,int) input; rel u(int) input; rel c(int,int); rel none(int); rel s(int
 c(x,n) <-- u(x), agg n = count() in e(x,_);
 none(x) <-- u(x), agg () = not() in e(x,_);
 s(x,t) <-- u(x), agg t = sum(y) in e(x,y);
-""", "agg par", bound=4)
+""", "agg par life", bound=4)
 
 # ------------------------------------------------------------------------------------------------ sugar (C07)
 prog("disj", """
 rel e(int,int) input; rel f(int,int) input; rel n(int); rel r(int,int);
 n(x) <-- (e(x,_) | e(_,x) | f(x,x));
 r(x,y) <-- (e(x,y) | f(x,y)), (if x > 0, n(x) | if y > 0, n(y));
-""", "sugar par perm pack", bound=3)
+""", "sugar par perm pack life", bound=3)
 
 prog("disj_nested", """
 rel e(int,int) input; rel u(int) input; rel r(int); rel q(int,int);
@@ -474,7 +474,7 @@ rel e(int,int) input; rel p2(int,int); rel p4(int,int);
 macro two(a, b) { e(a, t), e(t, b) }
 p2(x,y) <-- two!(x, y);
 p4(x,z) <-- two!(x, y), two!(y, z);
-""", "mac par pack", bound=4)
+""", "mac par pack life", bound=4)
 
 prog("mac_capture", """
 rel e(int,int) input; rel r(int,int); rel s(int,int);
